@@ -186,6 +186,7 @@ fn main() {
         Some("sched") => cmd_sched(&args[2..]),
         Some("pure") => pure::cmd_pure(&args[2..]),
         Some("cases") => cases::cmd_cases(&args[2..]),
+        Some("runstep") => cases::cmd_runstep(&args[2..]),
         _ => {
             eprintln!("usage: vh <sched|...> ...");
             2
